@@ -204,6 +204,13 @@ def library():
     add('close_empty_sig', lambda b: msg_close(b, sig=b''))
     add('open_empty_opts', lambda b: msg_open(b, codepage=b'', client=b''))
 
+    add('list_min8', lambda b: msg_getlist(b, [dict(name=b'', value=('o', b'')) for _ in range(9)]))
+
+    def min8_close(b):
+        msg_getlist(b, [dict(name=b'', value=('o', b'')) for _ in range(12)])
+        msg_close(b)
+    add('list_min8_close', min8_close)
+
     def full(b):
         msg_open(b, ref_time=(1000,))
         msg_getlist(b, [dict(status=(0x1d, 2), unit=30, scaler=-1, value=('i', 123456, 5)), dict(value=('o', b'EMH'))], sensor_time=(1001,))
